@@ -123,7 +123,14 @@ def main():
                     results[name] = {'kind': kind, 'error': 'patch does not apply'}
                     continue
             else:
-                apply_text(tmp, name, file, old, new)
+                try:
+                    apply_text(tmp, name, file, old, new)
+                except RuntimeError as e:
+                    # a catalogue entry whose pattern no longer matches the tree: reported, the
+                    # run goes on (the entry has to be brought up to date)
+                    print(f'{kind:7s} {name:40s} STALE-PATTERN {e}', flush=True)
+                    results[name] = {'kind': kind, 'error': str(e)}
+                    continue
             entry = {'kind': kind, 'note': note, 'expected': props, 'checks': []}
             if args.baseline:
                 ok, tail = run_baseline(tmp)
